@@ -6,7 +6,7 @@ use crate::encoding::Encoding;
 use std::collections::HashMap;
 use std::fmt::Write;
 use crate::parser::{Lexer, parse_with_lexer, ParseFlags};
-use std::convert::TryInto;
+use std::convert::{TryFrom, TryInto};
 use std::sync::Arc;
 use istring::SmallString;
 use datasize::DataSize;
@@ -271,7 +271,10 @@ impl Font {
     }
     pub fn widths(&self, resolve: &impl Resolve) -> Result<Option<Widths>> {
         match self.data {
-            FontData::Type0(ref t0) => t0.descendant_fonts[0].widths(resolve),
+            FontData::Type0(ref t0) => match t0.descendant_fonts.get(0) {
+                Some(font) => font.widths(resolve),
+                None => bail!("Type0 font without descendant font")
+            },
             FontData::Type1(ref info) | FontData::TrueType(ref info) => {
                 match *info {
                     TFont { first_char: Some(first), ref widths, .. } => Ok(Some(Widths {
@@ -285,11 +288,19 @@ impl Font {
             FontData::CIDFontType0(ref cid) | FontData::CIDFontType2(ref cid) => {
                 let mut widths = Widths::new(cid.default_width);
                 let mut iter = cid.widths.iter();
+                // character codes of a composite font are 16 bit
+                fn code(n: usize) -> Result<usize> {
+                    if n > 0xffff {
+                        bail!("character code {} in W array out of range", n);
+                    }
+                    Ok(n)
+                }
                 while let Some(p) = iter.next() {
-                    let c1 = p.as_usize()?;
+                    let c1 = code(p.as_usize()?)?;
                     match iter.next() {
                         Some(Primitive::Array(array)) => {
-                            widths.ensure_cid(c1 + array.len() - 1);
+                            code(c1 + array.len())?;
+                            widths.ensure_cid((c1 + array.len()).saturating_sub(1));
                             for (i, w) in array.iter().enumerate() {
                                 widths.set(c1 + i, w.as_number()?);
                             }
@@ -297,7 +308,8 @@ impl Font {
                         Some(&Primitive::Reference(r)) => {
                             match resolve.resolve(r)? {
                                 Primitive::Array(array) => {
-                                    widths.ensure_cid(c1 + array.len() - 1);
+                                    code(c1 + array.len())?;
+                                    widths.ensure_cid((c1 + array.len()).saturating_sub(1));
                                     for (i, w) in array.iter().enumerate() {
                                         widths.set(c1 + i, w.as_number()?);
                                     }
@@ -306,8 +318,9 @@ impl Font {
                             }
                         }
                         Some(&Primitive::Integer(c2)) => {
+                            let c2 = code(usize::try_from(c2).map_err(|_| other!("negative character code {} in W array", c2))?)?;
                             let w = try_opt!(iter.next()).as_number()?;
-                            for c in c1 ..= (c2 as usize) {
+                            for c in c1 ..= c2 {
                                 widths.set(c, w);
                             }
                         },
